@@ -29,7 +29,7 @@ Theorem C16_balance_never_negative : forall (cfg : config) (h : list op),
        clients_honest cfg world0 h [] ->
        let w := reach cfg h in
        vR w + vP w <= vS w /\
-       (vS w < two64 ->
+       (vS w < two63 ->
         exists w' : world, run total_balance no_fault w = (w', Done (Ok (vS w - vR w))) /\ 0 <= vS w - vR w).
 Proof. exact @balance_never_negative. Qed.
 Print Assumptions C16_balance_never_negative.
@@ -54,28 +54,35 @@ Proof. exact @honest_history_ok. Qed.
 Print Assumptions C16_honest_history_ok.
 
 Theorem C16_admin_total_is_total_balance : forall w : world,
-       exists iss red : list (Z * Z),
-         admin_step w ATotal =
-         (fst (admin_step w ATotal),
-          ATotals iss (sum64 (map snd iss)) red (sum64 (map snd red))
-            (sub64 (sum64 (map snd iss)) (sum64 (map snd red)))) /\
-         snd (run total_balance no_fault (reset_calls w)) =
-         Done (Ok (sub64 (sum64 (map snd iss)) (sum64 (map snd red)))) /\
-         tsum (map snd iss) = issued_total (w_db w) /\ tsum (map snd red) = redeemed_total (w_db w).
+       match snd (admin_step w ATotal) with
+       | AErr code cls =>
+           code = -32000 /\ cls = 5 /\ snd (run total_balance no_fault (reset_calls w)) = Done (Err EDb)
+       | ATotals iss ti red tr c =>
+           ti = sum64 (map snd iss) /\
+           tr = sum64 (map snd red) /\
+           c = sub64 ti tr /\
+           snd (run total_balance no_fault (reset_calls w)) = Done (Ok c) /\
+           tsum (map snd iss) = issued_total (w_db w) /\ tsum (map snd red) = redeemed_total (w_db w)
+       | _ => False
+       end.
 Proof. exact @admin_total_is_total_balance. Qed.
 Print Assumptions C16_admin_total_is_total_balance.
 
 Theorem C16_admin_issued_view : forall w : world,
-       exists rows : list (Z * Z),
-         snd (admin_step w (AIssued None)) = AAll rows (sum64 (map snd rows)) /\
-         tsum (map snd rows) = issued_total (w_db w).
+       match snd (admin_step w (AIssued None)) with
+       | AErr code cls => code = -32000 /\ cls = 5
+       | AAll rows t => t = sum64 (map snd rows) /\ tsum (map snd rows) = issued_total (w_db w)
+       | _ => False
+       end.
 Proof. exact @admin_issued_view. Qed.
 Print Assumptions C16_admin_issued_view.
 
 Theorem C16_admin_redeemed_view : forall w : world,
-       exists rows : list (Z * Z),
-         snd (admin_step w (ARedeemed None)) = AAll rows (sum64 (map snd rows)) /\
-         tsum (map snd rows) = redeemed_total (w_db w).
+       match snd (admin_step w (ARedeemed None)) with
+       | AErr code cls => code = -32000 /\ cls = 5
+       | AAll rows t => t = sum64 (map snd rows) /\ tsum (map snd rows) = redeemed_total (w_db w)
+       | _ => False
+       end.
 Proof. exact @admin_redeemed_view. Qed.
 Print Assumptions C16_admin_redeemed_view.
 
@@ -92,13 +99,20 @@ Print Assumptions C16_redeemed_view_total.
 Theorem C16_total_balance_exact : forall w : world,
        Forall (fun x : Z => 0 <= x) (map s_amount (d_sigs (w_db w))) ->
        Forall (fun x : Z => 0 <= x) (map r_amount (d_spent (w_db w))) ->
-       issued_total (w_db w) < two64 ->
+       issued_total (w_db w) < two63 ->
        redeemed_total (w_db w) <= issued_total (w_db w) ->
        exists w' : world,
          run total_balance no_fault w = (w', Done (Ok (issued_total (w_db w) - redeemed_total (w_db w)))) /\
          same_but_calls w w'.
 Proof. exact @total_balance_exact. Qed.
 Print Assumptions C16_total_balance_exact.
+
+Theorem C16_total_balance_overflow_fails : forall w : world,
+       (exists x : Z * Z,
+          In x (sum_by_ks (map (fun s : srow => (s_ks s, s_amount s)) (d_sigs (w_db w))) []) /\ two63 <= snd x) ->
+       exists w' : world, run total_balance no_fault w = (w', Done (Err EDb)) /\ same_but_calls w w'.
+Proof. exact @total_balance_overflow_fails. Qed.
+Print Assumptions C16_total_balance_overflow_fails.
 
 Theorem C16_signatures_are_exactly_what_was_returned : forall (cfg : config) (h : list op) (w : world),
        Good w ->
